@@ -327,7 +327,7 @@ def t_long(shard, nshards, seed, ev, known, n4=6000, n6=1200):
 def plan(tier):
     q = tier == "quick"
     tasks = [
-        Task("lines", t_lines, shards=8 if q else 16, n=1500 if q else 80000),
+        Task("lines", t_lines, shards=8 if q else 16, n=1500 if q else 40000),
         Task("files", t_files, shards=2 if q else 16, n=150 if q else 5000),
         Task("dirfaults", t_dirfaults, shards=1 if q else 8, n=80 if q else 1500),
         Task("long", t_long, shards=2 if q else 8, n4=6000 if q else 40000, n6=2000 if q else 8000),
@@ -335,5 +335,5 @@ def plan(tier):
     if not q:
         from ..fuzz import c14_fuzz
 
-        tasks.append(Task("fuzz", c14_fuzz.t_fuzz, shards=8, runs=150000))
+        tasks.append(Task("fuzz", c14_fuzz.t_fuzz, shards=8, runs=60000))
     return tasks
